@@ -100,9 +100,18 @@ type AWorld struct {
 	Revoked      []int        `json:"revoked"`
 	Desc         ADesc        `json:"desc"`
 	Now          int          `json:"now"`
+	// server-level cases (C08/C09): the batch of invocations sent in one request and the service
+	// methods registered on the server
+	Invs     []int  `json:"invs,omitempty"`
+	Services []ASvc `json:"services,omitempty"`
 	// BS[i]: ids of the tokens whose root block is in token i's own store (computed from the real
 	// delegation objects after concretisation)
 	BS [][]int `json:"bs"`
+}
+
+type ASvc struct {
+	Can    string `json:"can"`
+	Result string `json:"result"` // ok | okfx | err
 }
 
 type ATableRow struct {
@@ -650,7 +659,11 @@ func (cw *CWorld) derivesFunc(log *runLog) validator.DerivesFunc[NbMap] {
 }
 
 func (cw *CWorld) capability(log *runLog) validator.CapabilityParser[NbMap] {
-	return validator.NewCapability[NbMap](cw.A.Desc.Can, strReader{cw.A.Desc.With}, nbReader{}, cw.derivesFunc(log))
+	return cw.capabilityFor(cw.A.Desc.Can, log)
+}
+
+func (cw *CWorld) capabilityFor(can string, log *runLog) validator.CapabilityParser[NbMap] {
+	return validator.NewCapability[NbMap](can, strReader{cw.A.Desc.With}, nbReader{}, cw.derivesFunc(log))
 }
 
 func authLinks(cw *CWorld, a validator.Authorization[any]) []int {
